@@ -276,11 +276,19 @@ class Scenario(object):
             self.fee_model = PercentFeeModel(commission_pct=fee[1], tax_pct=fee[2])
             self.rates = (F(fee[1]), F(fee[2]))
         self.exchange = SimulatedExchange(self.t)
+        from qstrader import settings as _st0
+        _st0.SUPPORTED['CURRENCIES'] = [c_ for c_ in _st0.SUPPORTED['CURRENCIES'] if c_ != 'CHF']
         self.ccy = cfg.get('base_currency', 'USD')
         self.broker = SimulatedBroker(
             self.t, self.exchange, self.book, account_id='acct', base_currency=self.ccy,
             initial_funds=cfg['initial_funds'], fee_model=self.fee_model)
         self.broker.cash_balances = WatchedDict(self.broker.cash_balances)
+        if cfg.get('currency_added_later'):
+            # the host program extends the library's list of supported currencies AFTER this broker exists: the broker's own
+            # accounts are what they were, a balance query in the new currency is still an unsupported one
+            from qstrader import settings as _st
+            if 'CHF' not in _st.SUPPORTED['CURRENCIES']:
+                _st.SUPPORTED['CURRENCIES'] = list(_st.SUPPORTED['CURRENCIES']) + ['CHF']
         self.model = Model(cfg['initial_funds'] if cfg['initial_funds'] > 0 else 0)
         self.norder = 0
         self.orders = {}         # order_id -> dict(pid, asset, qty, submitted_at(idx), submit_time)
@@ -1633,6 +1641,7 @@ def make_cfg(rng):
     return {
         'start': rng.choice(STARTS),
         'loud': rng.random() < 0.15,        # event printing left on (the library default), output discarded
+        'currency_added_later': rng.random() < 0.1,
         'base_currency': rng.choice(['USD', 'USD', 'USD', 'GBP', 'EUR']),
         'initial_funds': rng.choice([0.0, 1e4, 1e6, 123456.78, rand_amount(rng)]),
         'fee': fee,
@@ -1836,7 +1845,7 @@ class Gen(object):
         if k in GETTER_FAULTS:
             return [k, 'nope']
         if k == 'badccy':
-            return ['get_acct_cash_ccy', rng.choice(['XYZ', 'usd', 'JPY', ''])]
+            return ['get_acct_cash_ccy', rng.choice(['XYZ', 'usd', 'JPY', ''] + (['CHF', 'CHF'] if sc.cfg.get('currency_added_later') else []))]
         if k == 'new_broker':
             return rng.choice([['new_broker', 'XYZ', 0.0], ['new_broker', 'USD', -amt]])
         if k == 'order_unknown':
